@@ -2,6 +2,7 @@ package parser
 
 import (
 	"fmt"
+	"strconv"
 	"strings"
 	"unicode"
 )
@@ -461,6 +462,40 @@ func (l *ExpandedLexer) readString() Token {
 				builder.WriteByte('\'')
 			case '\\':
 				builder.WriteByte('\\')
+			// The escapes below are the compact lexer's: `glyph expand` copies a
+			// string literal unchanged, so the expanded text must read it the
+			// same way. Unhandled, "caf\u00e9" became the ten characters
+			// cafu00e9 and the expanded file no longer meant what the original did.
+			case '0':
+				builder.WriteByte(0)
+			case 'a':
+				builder.WriteByte('\a')
+			case 'b':
+				builder.WriteByte('\b')
+			case 'f':
+				builder.WriteByte('\f')
+			case 'v':
+				builder.WriteByte('\v')
+			case 'x':
+				hex := l.readHexDigits(2)
+				if len(hex) != 2 {
+					return Token{Type: ILLEGAL, Literal: "invalid \\x escape: expected 2 hex digits", Line: startLine, Column: startColumn}
+				}
+				val, err := strconv.ParseUint(hex, 16, 8)
+				if err != nil {
+					return Token{Type: ILLEGAL, Literal: fmt.Sprintf("invalid \\x escape: %v", err), Line: startLine, Column: startColumn}
+				}
+				builder.WriteByte(byte(val))
+			case 'u':
+				hex := l.readHexDigits(4)
+				if len(hex) != 4 {
+					return Token{Type: ILLEGAL, Literal: "invalid \\u escape: expected 4 hex digits", Line: startLine, Column: startColumn}
+				}
+				val, err := strconv.ParseUint(hex, 16, 32)
+				if err != nil {
+					return Token{Type: ILLEGAL, Literal: fmt.Sprintf("invalid \\u escape: %v", err), Line: startLine, Column: startColumn}
+				}
+				builder.WriteRune(rune(val))
 			default:
 				builder.WriteByte(l.ch)
 			}
@@ -488,6 +523,20 @@ func (l *ExpandedLexer) readString() Token {
 		Line:    startLine,
 		Column:  startColumn,
 	}
+}
+
+// readHexDigits reads up to n hex digits without consuming the final
+// character (the caller's readChar does), as Lexer.readHexDigits does.
+func (l *ExpandedLexer) readHexDigits(n int) string {
+	var hex strings.Builder
+	for range n {
+		if !isHexDigit(l.peekChar()) {
+			break
+		}
+		l.readChar()
+		hex.WriteByte(l.ch)
+	}
+	return hex.String()
 }
 
 func (l *ExpandedLexer) skipWhitespaceExceptNewlines() {
